@@ -1,26 +1,31 @@
 ------------------------------ MODULE Literals ------------------------------
-(* C17: integer literals and comptime Python integers.
+(* C17: integer literals and comptime Python integers, alone or as elements of tuple /
+   array / list constants (nested tuples are flattened).
 
    Algorithm-shaped part, one action per step of the code path of a constant:
      Fold   cfg/builder.py ExprBuilder.visit_UnaryOp: `-` applied to a numeric constant is
-            folded into the constant (only for the literal forms written with a minus sign;
+            folded into the constant (only for elements written with a minus sign;
             comptime values arrive signed)
-     Check  checker/expr_checker.py python_value_to_guppy_type + _int_bounds_check:
-            a non-negative value checked against nat is bounds-checked UNSIGNED and typed
-            nat; every other integer is bounds-checked SIGNED and typed int
-     Match  check_type_against: the constant's type must equal the expected type (an int
-            constant is never narrowed to nat)
+     Check  checker/expr_checker.py python_value_to_guppy_type + _int_bounds_check, applied
+            to EVERY element of a tuple / list constant (one Check step per element, like the
+            loops in python_value_to_guppy_type / _python_list_to_guppy_type): a non-negative
+            value checked against nat is bounds-checked UNSIGNED and typed nat; every other
+            integer is bounds-checked SIGNED and typed int
+     Match  check_type_against / list coherence: every element's type must equal the
+            expected element type (an int constant is never narrowed to nat)
      Lower  compiler/expr_compiler.py python_value_to_hugr: IntVal / UnsignedIntVal of
-            width 64 hold the value modulo 2^64
+            width 64 hold the value modulo 2^64; the program observes element `pos`
      Observe compares with what the real compiler/interpreter did for this case.
-   Declarative part (the property): a value is accepted at int iff it lies in
-   [-2^63, 2^63-1], at nat iff in [0, 2^64-1] (NumOps!LitAccept on wide limb integers), and
-   the program then observes exactly that value.  Invariant Agreement ties both together on
-   every case; Observe prints {"bad": case, "why": ...} for each disagreement between the
-   spec and the recorded behaviour of /repo's compiler.
+   Declarative part (the property): the constant is accepted iff EVERY element lies in the
+   range of the type (int: [-2^63, 2^63-1], nat: [0, 2^64-1]; NumOps!LitAccept on wide limb
+   integers), and the program then observes exactly the value of the element it reads.
+   Invariant Agreement ties both together on every case; Observe prints
+   {"bad": case, "why": ...} for each disagreement between the spec and the recorded
+   behaviour of /repo's compiler.
 
    Cases come from the JSON file named by VERIF_CASES:
-     [ty |-> "int"|"nat", minus |-> 0|1 (written with unary minus), neg |-> 0|1, mag |-> limbs,
+     [ty |-> "int"|"nat", els |-> <<[minus |-> 0|1, neg |-> 0|1, mag |-> limbs], ...>>,
+      pos |-> index of the element the program reads,
       st |-> "ok"|"rejected"|..., ret |-> word the function returned,
       rk |-> "int"|"uint"|"none" kind of the result() event, rw |-> its word]            *)
 EXTENDS Integers, Sequences, TLC, Json, IOUtils
@@ -35,54 +40,58 @@ Last(kk)  == (kk * N) \div NChunks
 
 VARIABLES k, i,        \* chunk, case index
           pc,          \* "fold", "check", "match", "lower", "observe"
-          val,         \* the constant (Z) as the compiler sees it at this point
-          act,         \* type given to the constant: "int", "nat", "none"
+          j,           \* element being checked
+          val,         \* the elements (sequence of Z) as the compiler sees them at this point
+          act,         \* types given to the elements checked so far
           verdict,     \* "?", "accept", "overflow", "mismatch"
           word,        \* lowered machine word
           nacc, nrej   \* verdict counts of the chunk
-vars == <<k, i, pc, val, act, verdict, word, nacc, nrej>>
+vars == <<k, i, pc, j, val, act, verdict, word, nacc, nrej>>
 
 C == Cases[i]
-Source(c) == ZMk(c.neg = 1 /\ c.minus = 0, c.mag)        \* the constant node before folding
-Value(c)  == ZMk(c.neg = 1, c.mag)                       \* the Python integer the user wrote
+Src(e) == ZMk(e.neg = 1 /\ e.minus = 0, e.mag)          \* a constant node before folding
+Val(e) == ZMk(e.neg = 1, e.mag)                         \* the Python integer the user wrote
+Source(c) == Tup([n \in 1..Len(c.els) |-> Src(c.els[n])])
+Value(c)  == Tup([n \in 1..Len(c.els) |-> Val(c.els[n])])
 
-Start(ii) == /\ i = ii /\ pc = "fold" /\ val = Source(Cases[ii]) /\ act = "none"
+Start(ii) == /\ i = ii /\ pc = "fold" /\ j = 1 /\ val = Source(Cases[ii]) /\ act = <<>>
              /\ verdict = "?" /\ word = BvZero
+Idle(ii)  == /\ i = ii /\ pc = "fold" /\ j = 1 /\ val = <<>> /\ act = <<>> /\ verdict = "?" /\ word = BvZero
 Init == /\ k \in 1..NChunks /\ nacc = 0 /\ nrej = 0
-        /\ IF First(k) <= Last(k) THEN Start(First(k))
-           ELSE i = First(k) /\ pc = "fold" /\ val = ZMk(FALSE, BvZero) /\ act = "none" /\ verdict = "?" /\ word = BvZero
+        /\ IF First(k) <= Last(k) THEN Start(First(k)) ELSE Idle(First(k))
 
 Fold ==
     /\ pc = "fold" /\ i <= Last(k)
-    /\ val' = IF C.minus = 1 THEN ZNeg(val) ELSE val
+    /\ val' = Tup([n \in 1..Len(val) |-> IF C.els[n].minus = 1 THEN ZNeg(val[n]) ELSE val[n]])
     /\ pc' = "check"
-    /\ UNCHANGED <<k, i, act, verdict, word, nacc, nrej>>
-Check ==
+    /\ UNCHANGED <<k, i, j, act, verdict, word, nacc, nrej>>
+Check ==                                   \* one element per step
     /\ pc = "check"
-    /\ IF C.ty = "nat" /\ ~val.neg
-       THEN /\ act' = "nat"
-            /\ verdict' = IF ZInU(val) THEN "?" ELSE "overflow"
-       ELSE /\ act' = "int"
-            /\ verdict' = IF ZInS(val) THEN "?" ELSE "overflow"
-    /\ pc' = "match"
+    /\ IF C.ty = "nat" /\ ~val[j].neg
+       THEN /\ act' = Append(act, "nat")
+            /\ verdict' = IF verdict = "?" /\ ~ZInU(val[j]) THEN "overflow" ELSE verdict
+       ELSE /\ act' = Append(act, "int")
+            /\ verdict' = IF verdict = "?" /\ ~ZInS(val[j]) THEN "overflow" ELSE verdict
+    /\ IF j < Len(val) THEN j' = j + 1 /\ pc' = "check" ELSE j' = j /\ pc' = "match"
     /\ UNCHANGED <<k, i, val, word, nacc, nrej>>
 Match ==
     /\ pc = "match"
-    /\ verdict' = IF verdict # "?" THEN verdict ELSE IF act = C.ty THEN "accept" ELSE "mismatch"
+    /\ verdict' = IF verdict # "?" THEN verdict
+                  ELSE IF \A n \in 1..Len(act) : act[n] = C.ty THEN "accept" ELSE "mismatch"
     /\ pc' = "lower"
-    /\ UNCHANGED <<k, i, val, act, word, nacc, nrej>>
+    /\ UNCHANGED <<k, i, j, val, act, word, nacc, nrej>>
 Lower ==
     /\ pc = "lower"
-    /\ word' = IF verdict = "accept" THEN ZWrap(val) ELSE word
+    /\ word' = IF verdict = "accept" THEN ZWrap(val[C.pos]) ELSE word
     /\ pc' = "observe"
-    /\ UNCHANGED <<k, i, val, act, verdict, nacc, nrej>>
+    /\ UNCHANGED <<k, i, j, val, act, verdict, nacc, nrej>>
 
 Reported(c) == IF c.rk = "int" THEN ZOfS(c.rw) ELSE ZOfU(c.rw)
 Why(c) ==
     IF verdict = "accept"
     THEN IF c.st # "ok" THEN "verdict"
          ELSE IF c.ret # word THEN "value"
-         ELSE IF c.rk # "none" /\ ZCmp(Reported(c), Value(c)) # 0 THEN "report"
+         ELSE IF c.rk # "none" /\ ZCmp(Reported(c), Value(c)[c.pos]) # 0 THEN "report"
          ELSE "none"
     ELSE IF c.st # "rejected" THEN "verdict" ELSE "none"
 Observe ==
@@ -92,9 +101,9 @@ Observe ==
     /\ nacc' = nacc + (IF verdict = "accept" THEN 1 ELSE 0)
     /\ nrej' = nrej + (IF verdict = "accept" THEN 0 ELSE 1)
     /\ IF i + 1 <= Last(k)
-       THEN /\ i' = i + 1 /\ pc' = "fold" /\ val' = Source(Cases[i + 1]) /\ act' = "none"
+       THEN /\ i' = i + 1 /\ pc' = "fold" /\ j' = 1 /\ val' = Source(Cases[i + 1]) /\ act' = <<>>
             /\ verdict' = "?" /\ word' = BvZero
-       ELSE /\ i' = i + 1 /\ pc' = "fold" /\ UNCHANGED <<val, act, verdict, word>>
+       ELSE /\ i' = i + 1 /\ pc' = "fold" /\ UNCHANGED <<j, val, act, verdict, word>>
     /\ k' = k
 Next == Fold \/ Check \/ Match \/ Lower \/ Observe
 Spec == Init /\ [][Next]_vars
@@ -102,8 +111,8 @@ Spec == Init /\ [][Next]_vars
 \* the algorithm agrees with the declarative statement on every case
 Agreement ==
     pc = "observe" =>
-       /\ (verdict = "accept") <=> LitAccept(C.ty, Value(C))
-       /\ verdict = "accept" => (word = LitWord(Value(C)) /\ val = Value(C))
+       /\ (verdict = "accept") <=> (\A n \in 1..Len(C.els) : LitAccept(C.ty, Value(C)[n]))
+       /\ verdict = "accept" => (word = LitWord(Value(C)[C.pos]) /\ val = Value(C))
 Done == i = Last(k) + 1
 Accept == Done => PrintT(ToJson([accepted |-> k, acc |-> nacc, rej |-> nrej]))
 =============================================================================
